@@ -49,6 +49,7 @@ class Case:
         self.pre = None
         self.quiet = False
         self.kp = None
+        self.needs = []
         self.seed = 0
         self.valid = []             # hex strings known to be marshalled configurations (beyond the observed ones)
         self.env = {"euid": 0, "rlimit": None, "ro": set(), "full": set(), "gone": set(), "mode": {},
@@ -84,13 +85,14 @@ class Case:
         if self.pre:
             d["pre"] = self.pre
         d["quiet"] = self.quiet
+        d["needs"] = self.needs
         if self.kill:
             d = {"name": self.name, "ndirs": 1, "kill": self.kill, "seed": self.seed, "script": []}
         return d
 
 
 def ser_case(c):
-    return {"name": c.name, "ndirs": c.ndirs, "unshare": c.unshare, "script": c.script, "inject": c.inject,
+    return {"name": c.name, "ndirs": c.ndirs, "unshare": c.unshare, "script": c.script, "inject": c.inject, "needs": c.needs,
             "intervene": c.intervene, "valid": c.valid,
             "meta": [{k: (sorted(v) if isinstance(v, set) else v) for k, v in m.items()} for m in c.meta]}
 
@@ -113,6 +115,28 @@ def cfg(rng, size="small", gen=None, **kw):
          "keylen": rng.choice([0, 16, 32, 32, 32])}
     d.update(kw)
     return d
+
+
+KINDS = ["setconf", "setgen", "setdecoys", "setpubkey", "setsubnets"]
+
+
+def store_kind(c, rng, kind, size="small", **kw):
+    """one store through the named API call (setconf = whole ClientConf, the others edit one field in place)"""
+    if kind == "setconf":
+        c.store("setconf", cfg=cfg(rng, size, **kw))
+    elif kind == "setgen":
+        c.store("setgen", gen=rng.randrange(1, 1 << 31))
+    elif kind == "setdecoys":
+        c.store("setdecoys", n=rng.randrange(1, 40), seed=rng.randrange(1 << 30))
+    elif kind == "setpubkey":
+        c.store("setpubkey", n=rng.choice([16, 32]), seed=rng.randrange(1 << 30))
+    else:
+        c.store("setsubnets", n=rng.randrange(1, 100))
+
+
+def all_kinds(c, rng, size="small"):
+    for k in KINDS:
+        store_kind(c, rng, k, size)
 
 
 def rand_store(c, rng, size=None):
@@ -146,6 +170,8 @@ def finish_case(c):
 
 
 def gen_scripted(ctx):
+    """Every fault class puts EVERY kind of store (whole-ClientConf replacement and each single-field
+    mutator) under the fault; one-shot interventions rotate through the kinds."""
     rng = ctx.rng
     quick = ctx.tier == "quick"
     cases = []
@@ -154,9 +180,8 @@ def gen_scripted(ctx):
         c = Case("healthy%d" % n, ndirs=3)
         c.add("setdir", dir="$D0")
         if n % 3 == 0:
-            c.store("setconf", cfg=cfg(rng, "small"))
+            all_kinds(c, rng)
             c.store("setconf", cfg=cfg(rng, "small", bad=True))     # proto.Marshal fails: rollback, no system call
-            c.store("setgen", gen=rng.randrange(1, 1 << 31))
         for _ in range(rng.randrange(3, 9)):
             if rng.random() < 0.2:
                 c.add("setdir", dir="$D%d" % rng.randrange(0, 2))
@@ -174,7 +199,8 @@ def gen_scripted(ctx):
             c.add("writefile", dir="$D0", name=".ClientConf.%s.tmp" % "".join(rng.choice(ALPHA) for _ in range(5)),
                   data="00112233")
         c.add("setdir", dir="$D0").ls_all()
-        for _ in range(rng.randrange(1, 4)):
+        store_kind(c, rng, KINDS[n % 5])      # the first store on top of that initial content, by every kind of call
+        for _ in range(rng.randrange(0, 3)):
             rand_store(c, rng)
         cases.append(finish_case(c))
     # S3 quota through RLIMIT_FSIZE: a write lands k bytes, then fails
@@ -187,7 +213,9 @@ def gen_scripted(ctx):
         c.add("rlimit", k=k)
         c.env["rlimit"] = k
         c.store("setconf", cfg=cfg(rng, rng.choice(["tiny", "small", "medium"])))
-        if rng.random() < 0.5:
+        if k < 100:
+            all_kinds(c, rng)                 # every kind of store rewrites the whole file: all of them hit the quota
+        elif rng.random() < 0.5:
             rand_store(c, rng)
         c.add("rlimit", k=-1)
         c.env["rlimit"] = None
@@ -196,6 +224,7 @@ def gen_scripted(ctx):
     # S4 unwritable directory: the store runs with an unprivileged effective uid
     for n in range(2 if quick else 8):
         c = Case("euid%d" % n, ndirs=2)
+        c.needs = ["root"]
         c.add("setdir", dir="$D0")
         if n % 2 == 0:
             c.store("setconf", cfg=cfg(rng, "small"))
@@ -203,8 +232,7 @@ def gen_scripted(ctx):
             c.add("chmod", dir="$D0", k=0o555)
         c.add("seteuid", uid=65534)
         c.env["euid"] = 65534
-        c.store("setconf", cfg=cfg(rng, "small"))
-        rand_store(c, rng, "small")
+        all_kinds(c, rng)
         c.add("seteuid", uid=0)
         c.env["euid"] = 0
         if n % 4 >= 2:
@@ -214,18 +242,19 @@ def gen_scripted(ctx):
     # S5 a separate, small file system (tmpfs in a private mount namespace): healthy, full, read-only
     for n in range(2 if quick else 8):
         c = Case("tmpfs%d" % n, ndirs=2, unshare=True)
+        c.needs = ["mount"]
         c.add("mount_tmpfs", dir="$D0", size="256k")
         c.add("setdir", dir="$D0")
         c.store("setconf", cfg=cfg(rng, "small"))
         c.add("fill", dir="$D0", k=rng.choice([0, 100]))            # no free page: nothing of the write lands
         c.env["full"].add(0)
-        c.store("setconf", cfg=cfg(rng, "medium"))
+        all_kinds(c, rng, "medium")
         c.add("fill", dir="$D0", k=4096)                            # one free page: a prefix lands
         c.store("setconf", cfg=cfg(rng, "medium", ndecoys=rng.randrange(125, 180)))
-        rand_store(c, rng, "medium")
+        store_kind(c, rng, KINDS[1 + n % 4])
         c.add("remount_ro", dir="$D0")
         c.env["ro"].add(0)
-        c.store("setconf", cfg=cfg(rng, "small"))
+        all_kinds(c, rng)
         c.ls_all()
         cases.append(c)
     # S6 the directory vanishes (and re-appears) between stores
@@ -235,7 +264,7 @@ def gen_scripted(ctx):
         c.store("setconf", cfg=cfg(rng, "small"))
         c.add("rmdir", dir="$D0")
         c.env["gone"].add(0)
-        c.store("setconf", cfg=cfg(rng, "small"))
+        all_kinds(c, rng)
         if n % 3 == 1:
             c.add("setdir", dir="$D1")
             c.store("setconf", cfg=cfg(rng, "small"))
@@ -246,21 +275,23 @@ def gen_scripted(ctx):
             c.env["gone"].discard(0)
             rand_store(c, rng, "small")
         cases.append(finish_case(c))
-    # S7 the directory is removed between close and rename (rename entry delayed by strace)
-    for n in range(4 if quick else 12):
+    # S7 the directory is removed under one store: between close and rename (rename entry delayed by strace) or
+    #    between open and write (open exit delayed; the write then goes to an unlinked file); every kind of store
+    for n in range(10 if quick else 20):
         c = Case("midrm%d" % n, ndirs=2)
-        c.inject = ["renameat:delay_enter=1000000"]
+        c.needs = ["strace"]
+        at_open = n % 2 == 1
+        act = "rmdir" if (n // 2) % 2 == 0 else "rmdir_mkdir"
         c.add("setdir", dir="$D0")
-        act = "rmdir" if n % 2 == 0 else "rmdir_mkdir"
-        if n % 4 >= 2:
-            # the directory disappears between open and write: the write goes to an unlinked file
+        if at_open:
             c.inject = ["openat:delay_exit=400000:when=300+"]
             c.add("arm_open")
             c.intervene = {"wait_tmp_size": -1, "action": act, "dir": "$D0", "delay_ms": 0}
         else:
+            c.inject = ["renameat:delay_enter=1000000"]
             c.intervene = {"wait_tmp_size": -1, "action": act, "dir": "$D0", "delay_ms": 60}
-        c.env["interv"] = act + ("@open" if n % 4 >= 2 else "")
-        c.store("setconf", cfg=cfg(rng, "small"))
+        c.env["interv"] = act + ("@open" if at_open else "")
+        store_kind(c, rng, KINDS[(n // 2) % 5])
         if act == "rmdir":
             c.env["gone"].add(0)
         c.store("setconf", cfg=cfg(rng, "small"))
@@ -268,29 +299,30 @@ def gen_scripted(ctx):
     # S8 rename itself fails (error injected by strace)
     for n in range(1 if quick else 4):
         c = Case("renfail%d" % n, ndirs=2)
+        c.needs = ["strace"]
         c.add("writefile", dir="$D0", name="ClientConf", data="1005")
         c.valid.append("1005")
         c.inject = ["renameat:error=" + rng.choice(["EIO", "ENOSPC", "EACCES"])]
         c.env["rename_fail"] = True
         c.add("setdir", dir="$D0")
-        c.store("setconf", cfg=cfg(rng, "small"))
-        rand_store(c, rng, "small")
+        all_kinds(c, rng)
         cases.append(finish_case(c))
     # S9 close fails after a complete write (error injected by strace into every close of the child)
     for n in range(1 if quick else 4):
         c = Case("closefail%d" % n, ndirs=2)
+        c.needs = ["strace"]
         c.add("writefile", dir="$D0", name="ClientConf", data="1005")
         c.valid.append("1005")
         c.inject = ["close:error=EIO:when=400+"]
         c.add("setdir", dir="$D0")
         c.add("arm_close")
         c.env["close_fail"] = True
-        c.store("setconf", cfg=cfg(rng, "small"))
-        rand_store(c, rng, "small")
+        all_kinds(c, rng)
         cases.append(finish_case(c))
     for c in replay_items(ctx, "scripted"):
         rc = Case(c["name"] + "_replay", ndirs=c["ndirs"], unshare=c.get("unshare", False))
         rc.script, rc.meta, rc.inject, rc.intervene, rc.valid = c["script"], c["meta"], c.get("inject", []), c.get("intervene"), c.get("valid", [])
+        rc.needs = c.get("needs", [])
         for m in rc.meta:
             for k in ("ro", "full", "gone"):
                 m[k] = set(m[k])
@@ -333,7 +365,7 @@ def gen_killpoints(ctx):
         c.quiet = True
         a = cfg(rng, "small")
         if n % 3 == 0:
-            c.inject, c.kp = ["renameat:signal=SIGKILL"], "before-rename"
+            c.inject, c.kp, c.needs = ["renameat:signal=SIGKILL"], "before-rename", ["strace"]
             b = cfg(rng, rng.choice(["tiny", "small", "medium"]))
         else:
             c.kp = "mid-write"
@@ -354,6 +386,9 @@ def gen_killpoints(ctx):
 
 
 def eval_kp(ctx, c, out):
+    if out.get("skipped"):
+        ctx.count((c.name, "skipped"), nontrivial=False, kind="skipped/no-%s/kill-point-%s" % (out["skipped"], c.kp))
+        return []
     pre = out.get("pre_res") or []
     case_id = {"case": c.name, "crash_point": c.kp, "pre": c.pre, "script": c.script, "exit": out["exit"]}
     if len(pre) != len(c.pre) or ("killed" not in out["exit"] and "file size limit" not in out["exit"]):
@@ -606,6 +641,10 @@ def eval_scripted(ctx, c, out):
     res = out["res"] or []
     name = c.name
     kind = re.sub(r"\d+$", "", name)
+    if out.get("skipped"):
+        ctx.count((name, "skipped"), nontrivial=False, kind="skipped/no-%s/%s" % (out["skipped"], kind))
+        return None
+    straced = bool(out.get("straced"))
     if out["exit"] != "ok" or len(res) != len(c.script):
         ctx.broken("driver", "child of case %s did not complete: exit=%s results=%d/%d stderr=%s"
                    % (name, out["exit"], len(res), len(c.script), out.get("stderr", "")[-300:]))
@@ -613,7 +652,8 @@ def eval_scripted(ctx, c, out):
     if c.intervene and out.get("interv") != "done":
         ctx.count((name, "skipped"), nontrivial=False, kind="skipped/intervention-missed")
         return None
-    steps, rs, _ = project_trace(out["trace"], dirs)
+    steps, rs, _ = project_trace(out["trace"] or [], dirs)
+    names_seen = {}                    # dir index -> file names listed so far (to spot a new temporary without a trace)
     global INTERN
     INTERN = Intern()
     for r in res:
@@ -638,6 +678,7 @@ def eval_scripted(ctx, c, out):
             if r["err"] == "ok":
                 ents = []
                 disk[d] = None
+                names_seen[d] = set(e["name"] for e in r.get("ls") or [])
                 for e in r.get("ls") or []:
                     if e["name"] == "filler":
                         continue
@@ -713,6 +754,15 @@ def eval_scripted(ctx, c, out):
         cause = "healthy"
         stp = steps.get(i, [])
         landed = next((s[2] for s in stp if s[0] == "TAppend"), None)
+        if landed is None and not straced:
+            # without a trace: the bytes that landed are the length of the temporary the store left behind
+            for k in range(i + 1, len(res)):
+                if c.script[k]["op"] != "ls":
+                    break
+                if dir_index(res[k]["dir"], dirs) == d:
+                    for e in res[k].get("ls") or []:
+                        if e["name"] not in ("ClientConf", "filler") and e["name"] not in names_seen.get(d, set()):
+                            landed = e["dig"]["len"]
         if want_hex is None:
             cause = "marshal"
         elif d in meta["gone"]:
@@ -740,6 +790,7 @@ def eval_scripted(ctx, c, out):
             ctx.count((name, "skipped"), nontrivial=False, kind="skipped/intervention-missed")
             return None
         after_ls = {}
+        new_tmp = []
         for k in range(i + 1, len(res)):
             if c.script[k]["op"] != "ls":
                 break
@@ -749,11 +800,13 @@ def eval_scripted(ctx, c, out):
                 for e in res[k].get("ls") or []:
                     if e["name"] == "ClientConf":
                         cont = e["dig"].get("hex", "")
+                    elif dd == d and e["name"] != "filler" and e["name"] not in names_seen.get(dd, set()):
+                        new_tmp.append(proj_path(res[k]["dir"] + "/" + e["name"], dirs)[1][1])
             after_ls[dd] = cont
         after = after_ls.get(d, prev)
         removed = cause in ("dir-gone", "dir-removed-before-rename", "dir-removed-before-write")
         cls = "ok" if ok else "err"
-        ctx.count((name, i, o, cause), nontrivial=True, kind="%s/%s/%s" % ("setconf" if o == "setconf" else "mutate", cause, cls))
+        ctx.count((name, i, o, cause), nontrivial=True, kind="%s/%s/%s" % (o, cause, cls))
         if after is None and prev is not None and not removed:
             ctx.fail("atomic:%s:file-missing" % cause, "the ClientConf file is gone after a store (%s)" % cause, case_id)
         elif after is not None and after != prev and after != want_hex:
@@ -776,7 +829,7 @@ def eval_scripted(ctx, c, out):
         if o == "setconf" and ok and mem_hex != want_hex:
             ctx.fail("rollback:ok-but-memory-not-new", "SetClientConf succeeded but the in-memory configuration is not the new one", case_id)
         # the trace itself: the target may only be touched by a rename from a temporary of the same directory
-        for s in stp:
+        for s in (stp if straced else []):
             if s[0] in ("TCreate", "TAppend") and s[1][1][0] == "Target":
                 ctx.fail("trace:target-written-in-place", "the store opens/writes the ClientConf file itself (%s): a crash between "
                          "these system calls leaves a truncated file" % s[0], case_id)
@@ -789,15 +842,16 @@ def eval_scripted(ctx, c, out):
         for dd, cont in after_ls.items():
             disk[dd] = cont
         mem_before = mem_hex
-        r0 = rs.get(i, [0])
-        rr = r0[0] if r0 else 0
+        r0 = rs.get(i) or new_tmp or [0]    # the suffix comes from the trace, else from the temporary the store left behind
+        rr = r0[0]
         pl = "mkPlan %s %s %s %s %s %s" % (gN(rr), g_fault(fc), g_fault(fw), g_fault(fcl), g_fault(frn), glist(envs))
         wt = "None" if want_hex is None else "(Some %s)" % ihex(bytes.fromhex(want_hex))
         opt = "SetConf %s" % wt if o == "setconf" else "Mutate (fun _ => %s)" % wt
         items.append("IOp (%s) (%s) (%s, %s)" % (opt, pl, gbool(ok), gopt(mem_hex, lambda h: "(Lit %s)" % ihex(bytes.fromhex(h)))))
         trace_terms += [g_tstep(s) for s in stp]
     vt = glist(sorted(v for v in valid if v is not None), lambda h: ihex(bytes.fromhex(h)))
-    term = "(%s, %s, %s, %s, %s)" % (vt, ihex(bytes.fromhex(mem0)), gN(c.ndirs - 1), "[" + ";\n  ".join(items) + "]", glist(trace_terms))
+    term = "(%s, %s, %s, %s, %s, %s)" % (vt, ihex(bytes.fromhex(mem0)), gN(c.ndirs - 1), "[" + ";\n  ".join(items) + "]",
+                                         glist(trace_terms), gbool(straced))
     return INTERN.wrap(term)
 
 
@@ -930,18 +984,25 @@ def run(ctx):
         o = outs[len(scripted)]
         ctx.sample({"case": kills[0].name, "trials": o.get("kills", [])[:3]})
     hist = ctx.cov["histogram"]
-    need = ["setconf/healthy/ok", "mutate/healthy/ok", "setconf/marshal/err", "setconf/unwritable/err",
-            "setconf/quota-rlimit/err", "setconf/quota-enospc/err", "setconf/readonly-fs/err",
-            "setconf/dir-gone/err", "setconf/dir-removed-before-rename/err", "setconf/dir-removed-before-write/err",
-            "setconf/rename-fails/err", "setconf/close-fails/err", "setdir/ok", "setdir/err",
-            "kill/kp-before-rename/prev/in-temp", "kill/kp-mid-write/prev/in-temp"]
-    if hist.get("skipped/intervention-missed"):
-        need.remove("setconf/dir-removed-before-rename/err")
-        need.remove("setconf/dir-removed-before-write/err")
-    if hist.get("skipped/no-privilege-for-seteuid"):
-        need.remove("setconf/unwritable/err")
-    if hist.get("skipped/no-privilege-for-mount_tmpfs") or hist.get("skipped/no-privilege-for-remount_ro"):
-        need = [k for k in need if k not in ("setconf/quota-enospc/err", "setconf/readonly-fs/err")]
+    caps = next((o.get("caps") for o in outs if o.get("caps")), {}) or {}
+    skipped = sorted(k for k in hist if k.startswith("skipped/"))
+    ctx.cov["capabilities"] = caps
+    ctx.cov["skipped_classes"] = {k: hist[k] for k in skipped}
+    if skipped:
+        ctx.assumptions.append("case classes skipped because a privilege is missing in this environment (strace/ptrace, "
+                               "CAP_SYS_ADMIN for a private tmpfs, root for an unprivileged euid): %s" % ", ".join(skipped))
+    # generator self-test: every kind of store (whole ClientConf and each single-field mutator) under every fault class
+    persistent = {"unwritable": "root", "quota-rlimit": None, "quota-enospc": "mount", "readonly-fs": "mount",
+                  "dir-gone": None, "rename-fails": "strace", "close-fails": "strace"}
+    need = ["setconf/marshal/err", "setdir/ok", "setdir/err", "kill/kp-mid-write/prev/in-temp"]
+    need += ["%s/healthy/ok" % k for k in KINDS]
+    for cause, cap in persistent.items():
+        if cap is None or caps.get(cap):
+            need += ["%s/%s/err" % (k, cause) for k in KINDS]
+    if caps.get("strace"):
+        need.append("kill/kp-before-rename/prev/in-temp")
+        if not hist.get("skipped/intervention-missed"):
+            need += ["%s/dir-removed-before-rename/err" % k for k in KINDS] + ["%s/dir-removed-before-write/err" % k for k in KINDS]
     ctx.require_kinds(need)
     for kind in ("small", "big", "mixed"):
         if not any(k.startswith("kill/%s/" % kind) for k in hist):
